@@ -246,6 +246,11 @@ def stress_cases(run, seed, mods, ncase, reps, only=None):
         r = rng(seed, "C13", "stress", idx)
         cls = CLASSES[idx % len(CLASSES)]
         shape = shapes[int(r.integers(len(shapes)))]
+        if idx % 5 == 3:
+            # narrow frames: far more threads than columns, pixel counts that the thread count does not divide - the
+            # per-thread block bounds of the final walk then fall inside rows and leave a remainder
+            shape = [(60, 5), (50, 3), (60, 20), (97, 31), (200, 7), (61, 17)][(idx // 5) % 6]
+            run.count("narrow_frames")
         if run.tier == "thorough" and r.random() < 0.05:
             shape = big[int(r.integers(len(big)))]
         vmap = VMAPS[int(r.integers(len(VMAPS)))]
